@@ -18,7 +18,7 @@ RULE = ("case = one generated program (AST of 20-120 nodes over sequencing, if/e
         "distinct = distinct program text; non-trivial = the model executed at least one loop construct or closure "
         "call and at least 15 evaluation steps; not generated (documentation leaves it open): declarations inside call "
         "arguments, break/continue escaping a lambda or builtin callback, printing of functions/dicts, ordering of "
-        "containers")
+        "containers, break/continue inside a for header aimed at an enclosing loop")
 ASSUMPTIONS = ["c05_model.py is a faithful reading of README.md + DESIGN.md Appendix A scoping table",
                "error kind is reduced to raised / not raised (plus the thrown value for explicit throw)",
                "programs are bounded by construction (counter-guarded while loops, finite lists, small recursion depth)"]
@@ -193,6 +193,16 @@ class Gen:
 
     # ---------------------------------------------------------------- loops
     def clauses(self, depth):
+        # expressions in a for header must not contain break/continue aimed at an enclosing loop (what
+        # they mean there is not documented): generate them as if no loop were open
+        saved = self.loop_depth
+        self.loop_depth = 0
+        try:
+            return self._clauses(depth)
+        finally:
+            self.loop_depth = saved
+
+    def _clauses(self, depth):
         r = self.r
         cs = []
         n = r.choice([1, 1, 1, 2, 2, 3])
